@@ -264,7 +264,8 @@ func (fx *Fixtures) Payload(r *rand.Rand, of, cls string) ([]byte, error) {
 	case "short5":
 		b = b[:5]
 	case "overlong":
-		b = append(b, junk(1+r.Intn(64))...)
+		// boundary-dense: an upper length bound that is off by up to a span (8 bytes) must be hit
+		b = append(b, junk([]int{1, 2, 7, 8, 9, 16, 64}[r.Intn(7)])...)
 	case "overlongBig":
 		b = append(b, junk(4096+r.Intn(4096))...)
 	case "wrongOwner":
